@@ -13,6 +13,8 @@ from pymemcache import serde as S
 
 PROPERTY = "C04"
 LEVEL = "exploration"
+# parts repeated in a child interpreter started with -O and with warnings turned into errors (vlib/runner.py, MODES)
+MODE_PARTS = {"OW": ['grid']}
 RULE = ("case = (client kind in Client/PooledClient/single-server HashClient (pooled or not), configuration {prefix, "
         "encoding, allow_unicode_keys, serde in none/custom-json/pickle(p)/compressed}, 1-5 items with legal keys "
         "(bytes without forbidden bytes, ASCII str, UTF-8 str when enabled; distinct on the wire) and values (arbitrary "
